@@ -2,7 +2,8 @@ package io
 
 // Bounded stand-in for property C15, part 2 (labelled bounded; never counted as proved):
 // for a basic, a pure HAMT (fanout 8 and 256) and an automatically switching directory
-// (small sharding threshold so that it switches both ways), every sequence of 4 operations
+// (small sharding threshold so that it switches both ways), also continuing on the directory
+// as reloaded from its root node after every step, every sequence of 4 operations
 // (thorough: 5, sampled) out of add/replace/remove over 6 names is run; after every step
 // Links, ForEachLink, EnumLinksAsync and Find must equal a map model, removal of a missing
 // name must report os.ErrNotExist, and the directory reloaded from GetNode must list the
@@ -42,7 +43,7 @@ func TestVerifBoundedC15DirModel(t *testing.T) {
 	for i := 0; i < seqLen; i++ {
 		total *= len(ops)
 	}
-	kinds := []string{"basic", "hamt8", "hamt256", "dynamic"}
+	kinds := []string{"basic", "hamt8", "hamt256", "dynamic", "hamt8-reloaded", "dynamic-reloaded"}
 	cases, fails := 0, 0
 	for _, kind := range kinds {
 		for idx := 0; idx < total; idx += stride {
@@ -59,11 +60,11 @@ func TestVerifBoundedC15DirModel(t *testing.T) {
 			switch kind {
 			case "basic":
 				dir, err = NewBasicDirectory(ds)
-			case "hamt8":
+			case "hamt8", "hamt8-reloaded":
 				dir, err = NewHAMTDirectory(ds, 0, WithMaxHAMTFanout(8))
 			case "hamt256":
 				dir, err = NewHAMTDirectory(ds, 0, WithMaxHAMTFanout(256))
-			case "dynamic":
+			case "dynamic", "dynamic-reloaded":
 				dir, err = NewDirectory(ds, WithMaxHAMTFanout(8))
 				if err == nil {
 					dir.(*DynamicDirectory).Directory.(*BasicDirectory).SetHAMTShardingSize(150)
@@ -153,6 +154,17 @@ func TestVerifBoundedC15DirModel(t *testing.T) {
 						bad = "reload: " + err.Error()
 					} else {
 						bad = check(re, fmt.Sprintf("step %d after reload", i))
+						if kind == "hamt8-reloaded" || kind == "dynamic-reloaded" {
+							// keep working on the directory as loaded from its root node
+							if dd, ok := re.(*DynamicDirectory); ok && kind == "dynamic-reloaded" {
+								if b, ok := dd.Directory.(*BasicDirectory); ok {
+									b.SetHAMTShardingSize(150)
+								} else if hd, ok := dd.Directory.(*HAMTDirectory); ok {
+									hd.SetHAMTShardingSize(150)
+								}
+							}
+							dir = re
+						}
 					}
 				}
 			}
@@ -164,7 +176,7 @@ func TestVerifBoundedC15DirModel(t *testing.T) {
 			}
 		}
 	}
-	fmt.Printf("BOUNDED-STATS {\"cases\":%d,\"failures\":%d,\"bound\":\"4 directory kinds, %d operations, sequences of length %d (every %d-th)\"}\n", cases, fails, len(ops), seqLen, stride)
+	fmt.Printf("BOUNDED-STATS {\"cases\":%d,\"failures\":%d,\"bound\":\"6 directory kinds, %d operations, sequences of length %d (every %d-th)\"}\n", cases, fails, len(ops), seqLen, stride)
 	if fails > 0 {
 		t.Fail()
 	}
